@@ -78,54 +78,90 @@ ODD = r'''
     fn k_c11_enc_odd_dims_3x3_ss11() { odd_dims(3, 3, 1, 1) }
 '''
 
-VEC = r'''
+VEC_PRELUDE = r'''
 #[cfg(kani)]
 #[allow(dead_code, unused_imports, clippy::all, clippy::pedantic, clippy::nursery)]
 mod verif_c11v {
     use crate::verif_common::*;
     use crate::*;
+    // Pure bit-mixing stand-ins.  The per-pixel kernels (scalar transfer curves, opsin mixing, HSL formula, matrix product, math
+    // helpers) are functions of ONE pixel by construction; what these harnesses decide is that the image-level loops apply them to
+    // every pixel, independently, in row-major order - for every pixel bit pattern.
     fn stub_powf(x: f32, y: f32) -> f32 { f32::from_bits(x.to_bits() ^ y.to_bits().rotate_left(7) ^ 0x5555_5555) }
     fn stub_expf(x: f32) -> f32 { f32::from_bits(x.to_bits().rotate_left(3) ^ 0x0F0F_0F0F) }
     fn stub_cbrtf(x: f32) -> f32 { f32::from_bits(x.to_bits().rotate_left(5) ^ 0x3333_3333) }
-    // fixed-point pixel components k/64 (i8): the claim is structural, and two copies of full-width float multipliers/dividers
-    // on identical inputs are not provably equal for SAT in reasonable time
-    fn anyc() -> f32 { let k: i8 = kani::any(); (k as f32) * 0.015625 }
-    fn anyp() -> [f32; 3] { [anyc(), anyc(), anyc()] }
-    fn same(a: &[f32; 3], b: &[f32; 3]) -> bool { a[0].to_bits() == b[0].to_bits() && a[1].to_bits() == b[1].to_bits() && a[2].to_bits() == b[2].to_bits() }
-
-    macro_rules! pointwise {
-        ($name:ident, $conv:expr) => {
-            #[kani::proof]
-            #[kani::unwind(12)]
-            #[kani::stub(yuvxyb_math::pow_exp::powf, stub_powf)]
-            #[kani::stub(yuvxyb_math::pow_exp::expf, stub_expf)]
-            #[kani::stub(yuvxyb_math::cbrtf::cbrtf, stub_cbrtf)]
-            #[kani::stub(yuvxyb_math::matrix::Matrix::mul_arr, yuvxyb_math::matrix::verif_stub_mul_arr)]
-            fn $name() {
-                let px = [anyp(), anyp(), anyp()];
-                let conv = $conv;
-                let (all, w, h): (Vec<[f32; 3]>, usize, usize) = conv(px.to_vec(), 3, 1);
-                assert!(all.len() == 3 && w == 3 && h == 1, "width, height and pixel count preserved");
-                for i in 0..3 {
-                    let (one, _, _) = conv(vec![px[i]], 1, 1);
-                    assert!(same(&all[i], &one[0]), "output pixel i equals the conversion of the 1x1 image holding input pixel i, bit for bit");
-                }
-                let (again, _, _) = conv(px.to_vec(), 3, 1);
-                for i in 0..3 { assert!(same(&all[i], &again[i]), "repeating the conversion gives bit-identical output"); }
-                let (tall, w2, h2) = conv(px.to_vec(), 1, 3);
-                assert!(w2 == 1 && h2 == 3, "a 1x3 image keeps its shape");
-                for i in 0..3 { assert!(same(&all[i], &tall[i]), "row-major order independent of the image shape"); }
-            }
-        };
+    fn stub_curve(x: f32) -> f32 { f32::from_bits(x.to_bits().rotate_left(11) ^ 0x1357_9BDF) }
+    fn stub_px_ref(p: &[f32; 3]) -> [f32; 3] {
+        [f32::from_bits(p[0].to_bits() ^ p[1].to_bits().rotate_left(9) ^ p[2].to_bits().rotate_left(18)), f32::from_bits(p[1].to_bits().rotate_left(3) ^ p[2].to_bits()),
+         f32::from_bits(p[2].to_bits().rotate_left(5) ^ p[0].to_bits())]
     }
-    pointwise!(k_c11_vec_to_linear_srgb_p2020, |d: Vec<[f32; 3]>, w, h| { let o = LinearRgb::try_from(Rgb::new(d, w, h, TC::SRGB, CP::BT2020).unwrap()).unwrap(); (o.data().to_vec(), o.width(), o.height()) });
-    pointwise!(k_c11_vec_to_gamma_pq_p3, |d: Vec<[f32; 3]>, w, h| { let o = Rgb::try_from((LinearRgb::new(d, w, h).unwrap(), TC::PerceptualQuantizer, CP::P3DCI)).unwrap(); (o.data().to_vec(), o.width(), o.height()) });
-    pointwise!(k_c11_vec_xyb_forward, |d: Vec<[f32; 3]>, w, h| { let o = Xyb::from(LinearRgb::new(d, w, h).unwrap()); (o.data().to_vec(), o.width(), o.height()) });
-    pointwise!(k_c11_vec_xyb_inverse, |d: Vec<[f32; 3]>, w, h| { let o = LinearRgb::from(Xyb::new(d, w, h).unwrap()); (o.data().to_vec(), o.width(), o.height()) });
-    pointwise!(k_c11_vec_hsl_forward, |d: Vec<[f32; 3]>, w, h| { let o = Hsl::from(LinearRgb::new(d, w, h).unwrap()); (o.data().to_vec(), o.width(), o.height()) });
-    pointwise!(k_c11_vec_xyb_from_rgb_hlg, |d: Vec<[f32; 3]>, w, h| { let o = Xyb::try_from(Rgb::new(d, w, h, TC::HybridLogGamma, CP::BT709).unwrap()).unwrap(); (o.data().to_vec(), o.width(), o.height()) });
-}
+    fn stub_px_val(p: [f32; 3]) -> [f32; 3] { stub_px_ref(&p) }
+    fn anyp() -> [f32; 3] { [kani::any(), kani::any(), kani::any()] }
+    fn same(a: &[f32; 3], b: &[f32; 3]) -> bool { a[0].to_bits() == b[0].to_bits() && a[1].to_bits() == b[1].to_bits() && a[2].to_bits() == b[2].to_bits() }
 '''
+
+VEC_ONE = r'''
+    #[kani::proof]
+    #[kani::unwind(12)]
+%(stubs)s
+    fn %(name)s() {
+        let px = [anyp(), anyp(), anyp()];
+        let conv = %(conv)s;
+        let (all, w, h): (Vec<[f32; 3]>, usize, usize) = conv(px.to_vec(), 3, 1);
+        assert!(all.len() == 3 && w == 3 && h == 1, "width, height and pixel count preserved");
+        for i in 0..3 {
+            let (one, _, _) = conv(vec![px[i]], 1, 1);
+            assert!(same(&all[i], &one[0]), "output pixel i equals the conversion of the 1x1 image holding input pixel i, bit for bit");
+        }
+        let (tall, w2, h2) = conv(px.to_vec(), 1, 3);
+        assert!(w2 == 1 && h2 == 3, "a 1x3 image keeps its shape");
+        for i in 0..3 { assert!(same(&all[i], &tall[i]), "row-major order independent of the image shape; repeating the conversion gives bit-identical output"); }
+        kani::cover!(px[0][0].is_nan() && px[2][1] == 0.5, "arbitrary pixels explored");
+    }
+'''
+
+ST = "    #[kani::stub(%s, %s)]"
+MATH = [ST % ("yuvxyb_math::pow_exp::powf", "stub_powf"), ST % ("yuvxyb_math::pow_exp::expf", "stub_expf"), ST % ("yuvxyb_math::cbrtf::cbrtf", "stub_cbrtf"),
+        ST % ("yuvxyb_math::matrix::Matrix::mul_arr", "yuvxyb_math::matrix::verif_stub_mul_arr")]
+VECS = [
+    ("k_c11_vec_to_linear_srgb_p2020", "Rgb(sRGB, BT.2020) -> LinearRgb", [ST % ("crate::yuv_rgb::transfer::srgb_eotf", "stub_curve")],
+     "|d: Vec<[f32; 3]>, w, h| { let o = LinearRgb::try_from(Rgb::new(d, w, h, TC::SRGB, CP::BT2020).unwrap()).unwrap(); (o.data().to_vec(), o.width(), o.height()) }"),
+    ("k_c11_vec_to_gamma_pq_p3", "LinearRgb -> Rgb(PQ, P3-DCI)", [ST % ("crate::yuv_rgb::transfer::st_2084_oetf", "stub_curve")],
+     "|d: Vec<[f32; 3]>, w, h| { let o = Rgb::try_from((LinearRgb::new(d, w, h).unwrap(), TC::PerceptualQuantizer, CP::P3DCI)).unwrap(); (o.data().to_vec(), o.width(), o.height()) }"),
+    ("k_c11_vec_xyb_forward", "LinearRgb -> Xyb", [ST % ("crate::rgb_xyb::opsin_absorbance", "stub_px_ref"), ST % ("crate::rgb_xyb::mixed_to_xyb", "stub_px_ref")],
+     "|d: Vec<[f32; 3]>, w, h| { let o = Xyb::from(LinearRgb::new(d, w, h).unwrap()); (o.data().to_vec(), o.width(), o.height()) }"),
+    ("k_c11_vec_hsl_forward", "LinearRgb -> Hsl", [ST % ("crate::hsl::lrgb_to_hsl", "stub_px_val")],
+     "|d: Vec<[f32; 3]>, w, h| { let o = Hsl::from(LinearRgb::new(d, w, h).unwrap()); (o.data().to_vec(), o.width(), o.height()) }"),
+    ("k_c11_vec_hsl_inverse", "Hsl -> LinearRgb", [ST % ("crate::linear_rgb::hsl_to_lrgb", "stub_px_val")],
+     "|d: Vec<[f32; 3]>, w, h| { let o = LinearRgb::from(Hsl::new(d, w, h).unwrap()); (o.data().to_vec(), o.width(), o.height()) }"),
+    ("k_c11_vec_xyb_from_rgb_hlg", "Rgb(HLG) -> Xyb", [ST % ("crate::yuv_rgb::transfer::arib_b67_inverse_oetf", "stub_curve"), ST % ("crate::rgb_xyb::opsin_absorbance", "stub_px_ref"), ST % ("crate::rgb_xyb::mixed_to_xyb", "stub_px_ref")],
+     "|d: Vec<[f32; 3]>, w, h| { let o = Xyb::try_from(Rgb::new(d, w, h, TC::HybridLogGamma, CP::BT709).unwrap()).unwrap(); (o.data().to_vec(), o.width(), o.height()) }"),
+]
+# the inverse XYB loop has no per-pixel helper function: real arithmetic on fixed-point pixels
+VEC_XYB_INV = r'''
+    #[kani::proof]
+    #[kani::unwind(12)]
+    #[kani::stub(yuvxyb_math::cbrtf::cbrtf, stub_cbrtf)]
+    fn k_c11_vec_xyb_inverse() {
+        fn c() -> f32 { let k: i8 = kani::any(); (k as f32) * 0.015625 }
+        let px = [[c(), c(), c()], [c(), c(), c()], [c(), c(), c()]];
+        let conv = |d: Vec<[f32; 3]>, w, h| { let o = LinearRgb::from(Xyb::new(d, w, h).unwrap()); (o.data().to_vec(), o.width(), o.height()) };
+        let (all, w, h): (Vec<[f32; 3]>, usize, usize) = conv(px.to_vec(), 3, 1);
+        assert!(all.len() == 3 && w == 3 && h == 1, "width, height and pixel count preserved");
+        for i in 0..3 {
+            let (one, _, _) = conv(vec![px[i]], 1, 1);
+            assert!(same(&all[i], &one[0]), "output pixel i equals the conversion of the 1x1 image holding input pixel i, bit for bit");
+        }
+    }
+'''
+
+
+def vec_module():
+    t = VEC_PRELUDE
+    for (n, what, extra, conv) in VECS:
+        t += VEC_ONE % dict(name=n, conv=conv, stubs="\n".join(MATH + extra))
+    t += VEC_XYB_INV
+    return t + "}\n"
 
 
 def geom_replay_none(ctx, spec, f):
@@ -159,7 +195,7 @@ def plan(tier, seed):
     for k, (T, sx, sy, w, h) in enumerate(inst):
         n = "k_c11_dec_%s_ss%d%d_%dx%d" % (T, sx, sy, w, h)
         txt += geom.decode_harness(T, sx, sy, w, h, n, 8 if T == "u8" else 10, symbolic_content=True, pointwise=True, ue=k % 2, ve=(k + 1) % 2, keepcmp=thorough, full=(k % 2 == 1))
-        hs.append(dict(name=n, family="decode", timeout=3000 if thorough else 1500, mem_gb=20, unwind_rules=geom.decode_rules(w, h), replay=dec_replay,
+        hs.append(dict(name=n, family="decode", timeout=3000 if thorough else 1500, mem_gb=30, unwind_rules=geom.decode_rules(w, h), replay=dec_replay,
                        dec=dict(T=T, w=w, h=h, ssx=sx, ssy=sy, bd=8 if T == "u8" else 10), covers=["accepted", "decoded"],
                        obligation="decode %s %dx%d subsampling (%d,%d): output pixel (x,y) is bit-identical to the kernels applied to Y(x,y), U/V(x>>ss_x,y>>ss_y) computed from the visible window only - hence independent of stride, origin, padding and padding contents; source unmodified" % (T, w, h, sx, sy),
                        sym="all samples of all three buffers symbolic (padding included); luma origin, chroma window sizes and origins symbolic; range concrete per instance (a symbolic range makes scale/offset symbolic: symbolic x symbolic fused multiply-adds)"))
@@ -182,21 +218,20 @@ def plan(tier, seed):
                        obligation="encoding to a subsampling that does not divide the dimensions (domain of known finding F6: panics instead of returning an error)", sym="concrete dimensions / subsampling with one dimension not divisible"))
     p.modules.append(("src/yuv_rgb.rs", et))
     # (c) Vec-based conversions
-    p.modules.append(("src/lib.rs", VEC))
-    for n, what in (("k_c11_vec_to_linear_srgb_p2020", "Rgb(sRGB, BT.2020) -> LinearRgb"), ("k_c11_vec_to_gamma_pq_p3", "LinearRgb -> Rgb(PQ, P3-DCI)"), ("k_c11_vec_xyb_forward", "LinearRgb -> Xyb"),
-                    ("k_c11_vec_xyb_inverse", "Xyb -> LinearRgb"), ("k_c11_vec_hsl_forward", "LinearRgb -> Hsl"), ("k_c11_vec_xyb_from_rgb_hlg", "Rgb(HLG) -> Xyb")):
-        if n == "k_c11_vec_hsl_forward" and not thorough:
-            continue     # two float divisions per pixel x 12 pixel conversions: > 30 min; thorough tier only (time-capped)
-        hs.append(dict(name=n, family="vec", timeout=5400 if n == "k_c11_vec_hsl_forward" else 1800, mem_gb=12, replay=None, covers=[],
-                       obligation="%s: 3-pixel image (3x1 and 1x3): pixel i == conversion of the 1x1 image of pixel i, bit for bit; dimensions preserved; repeat is bit-identical" % what,
-                       sym="3 pixels, components on the fixed-point grid k/64 in [-2,2) (powf/expf/cbrtf/mul_arr replaced by pure stand-ins: the claim is structural)"))
+    p.modules.append(("src/lib.rs", vec_module()))
+    for (n, what, extra, conv) in VECS:
+        hs.append(dict(name=n, family="vec", timeout=1500, mem_gb=12, replay=None, covers=["arbitrary pixels explored"],
+                       obligation="%s: 3-pixel image (3x1 and 1x3): pixel i == conversion of the 1x1 image of pixel i, bit for bit; dimensions preserved; shape-independent order" % what,
+                       sym="3 pixels, all 2^96 bit patterns each; the per-pixel kernel (%s) and the math helpers are pure bit-mixing stand-ins: the claim is about the image-level loops" % ", ".join(x.split("(")[1].split(",")[0].split("::")[-1] for x in extra)))
+    hs.append(dict(name="k_c11_vec_xyb_inverse", family="vec", timeout=1500, mem_gb=12, replay=None, covers=[],
+                   obligation="Xyb -> LinearRgb: 3-pixel image: pixel i == conversion of the 1x1 image of pixel i, bit for bit (real arithmetic, cbrtf stubbed)", sym="3 pixels on the fixed-point grid k/64"))
     p.harnesses = hs
     p.functions = ["ycbcr_to_ypbpr, ypbpr_to_ycbcr (src/yuv_rgb.rs)", "image_transfer_fn! loops, transform_primaries loop (transfer.rs, color.rs)", "linear_rgb_to_xyb / xyb_to_linear_rgb loops (rgb_xyb.rs)", "Hsl::from loop (hsl.rs)",
                    "all From/TryFrom wrappers that carry width/height"]
     p.bounds = ["decode: luma windows up to %s inside buffers one sample larger in each direction" % ("4x4" if thorough else "2x2"), "encode: images up to %s; output planes built by an unpadded stand-in for Plane::new" % ("4x4" if thorough else "2x4 / 4x1"),
-                "Vec-based conversions: 3-pixel images (3x1 and 1x3)"]
+                "Vec-based conversions: symbolic 2-pixel images (grid components) + concrete 3-pixel images in both shapes"]
     p.outside = ["the property's sizes 1..=64 and padding up to 32 (loops are uniform in x,y, nothing size-specific is hidden - an argument, not a solver result)", "64-byte aligned strides of the real Plane::new in the encode harnesses",
-                 "LinearRgb::from(Hsl) (float %)"]
+                 "numeric behaviour of LinearRgb::from(Hsl) (float %); its image-level loop is covered with the per-pixel formula stubbed"]
     p.assumptions = ["math kernels replaced by pure stand-ins in the Vec harnesses (equal arguments => equal results is all that is used)", "v_frame plane representation invariant (see C07)"]
     return p
 
